@@ -32,7 +32,10 @@ func (rc *recipeCtx) inlinable(call *ssa.Call) (*ssa.Function, *ssa.Return) {
 	if cal == nil || cal.Blocks == nil || !rc.p.inModule(cal) || isIndexMutator(cal) || rc.inl > 3 {
 		return nil, nil
 	}
-	if cal.Signature.Recv() != nil || len(cal.Blocks) > 12 {
+	if len(cal.Blocks) > 12 {
+		return nil, nil
+	}
+	if r := cal.Signature.Recv(); r != nil && !namedIs(derefT(r.Type()), "DB") && !namedIs(derefT(r.Type()), "Tx") {
 		return nil, nil
 	}
 	rets := returnsOf(cal)
@@ -50,7 +53,14 @@ func (rc *recipeCtx) inlineResult(call *ssa.Call, cal *ssa.Function, ret *ssa.Re
 	}
 	for i, p := range cal.Params {
 		if i < len(call.Call.Args) {
-			nb[p] = rc.recipe(call.Call.Args[i], d+1)
+			switch {
+			case namedIs(derefT(p.Type()), "DB"):
+				nb[p] = "DB"
+			case namedIs(derefT(p.Type()), "Tx"):
+				nb[p] = "TX"
+			default:
+				nb[p] = rc.recipe(call.Call.Args[i], d+1)
+			}
 		}
 	}
 	rc.bind = nb
@@ -662,7 +672,16 @@ func ruleReplayKV(c *Ctx) {
 				}()) == "BPTreeIdx":
 					sparse = false
 				default:
-					return // tx-id indexes and friends
+					// the tree may come from a get-or-create helper: decide by the recipe of the receiver
+					rr := (&recipeCtx{p: c.P, cone: cone}).recipe(recv, 0)
+					switch {
+					case strings.HasPrefix(rr, "Lookup(DB.BPTreeIdx,"):
+						sparse = false
+					case rr == "DB.ActiveBPTreeIdx":
+						sparse = true
+					default:
+						return // tx-id indexes and friends
+					}
 				}
 				rc := &recipeCtx{p: c.P, cone: cone}
 				out = append(out, ins{call, f, rc.recipe(call.Call.Args[1], 0), sparse})
@@ -827,7 +846,7 @@ func ruleMergeClassify(c *Ctx) {
 		commitCone[f] = true
 	}
 	// filter functions: bool-returning callees of Merge taking an *Entry
-	var filters, keepers []*ssa.Function
+	var filters, keepers, keepPreds []*ssa.Function
 	for _, f := range c.P.ModCone(merge) {
 		if commitCone[f] || f == merge {
 			continue
@@ -844,6 +863,28 @@ func ruleMergeClassify(c *Ctx) {
 		res := f.Signature.Results()
 		if res.Len() == 1 {
 			if b, ok := res.At(0).Type().Underlying().(*types.Basic); ok && b.Kind() == types.Bool {
+				// a predicate whose TRUE result makes Merge append the scanned entry is a keeper written as a
+				// predicate ("is this entry still live?"), not a filter
+				isKeepPred := false
+				trueEdges := boolEdges(merge, true, func(x ssa.Value) bool {
+					call, ok := resolve1(x).(*ssa.Call)
+					return ok && call.Call.StaticCallee() == f
+				})
+				if len(trueEdges) > 0 {
+					instrs(merge, func(in ssa.Instruction) {
+						call, ok := in.(*ssa.Call)
+						if !ok {
+							return
+						}
+						if bi, ok := call.Call.Value.(*ssa.Builtin); ok && bi.Name() == "append" && isEntrySliceType(call.Type()) && edgesDominate(merge, trueEdges, in.Block()) {
+							isKeepPred = true
+						}
+					})
+				}
+				if isKeepPred {
+					keepPreds = append(keepPreds, f)
+					continue
+				}
 				filters = append(filters, f)
 				continue
 			}
@@ -852,8 +893,8 @@ func ruleMergeClassify(c *Ctx) {
 			}
 		}
 	}
-	if len(filters) == 0 || len(keepers) == 0 {
-		c.undecided(fnName(merge), "classification functions", "", fmt.Sprintf("found %d filter and %d keeper functions in the cone of Merge", len(filters), len(keepers)))
+	if len(filters) == 0 || len(keepers)+len(keepPreds) == 0 {
+		c.undecided(fnName(merge), "classification functions", "", fmt.Sprintf("found %d filter and %d keeper functions in the cone of Merge", len(filters), len(keepers)+len(keepPreds)))
 		return
 	}
 	rc := &recipeCtx{p: c.P}
@@ -940,6 +981,20 @@ func ruleMergeClassify(c *Ctx) {
 				}
 			})
 		}
+		for _, f := range keepPreds {
+			c.touch(f)
+			reach := reachFrom(f.Blocks[0], pr)
+			for _, r := range returnsOf(f) {
+				if !reach[r.Block()] {
+					continue
+				}
+				for _, v := range resolve(r.Results[0]) {
+					if b, ok := constBool(v); !ok || b {
+						kept = true
+					}
+				}
+			}
+		}
 		c.Sites++
 		switch {
 		case dead:
@@ -947,7 +1002,7 @@ func ruleMergeClassify(c *Ctx) {
 		case kept:
 			c.ok(name, "classified by Merge", "", "kept if still present in the index")
 		default:
-			c.bad(name, "classified by Merge", c.P.pos(keepers[0].Pos()), "Merge neither filters records with this code as dead nor can keep them: such records vanish when their segment is merged, so the operation is undone after the next reopen")
+			c.bad(name, "classified by Merge", c.P.pos(merge.Pos()), "Merge neither filters records with this code as dead nor can keep them: such records vanish when their segment is merged, so the operation is undone after the next reopen")
 		}
 	}
 	c.minInstances("emitted (ds,Flag) codes", len(rf.codes), 16)
